@@ -28,6 +28,8 @@ PROOFS = ["PQ/Lemmas/SrcEquivBase.lean", "PQ/Lemmas/SrcEquiv.lean", "PQ/Lemmas/S
 
 ST, PQ, DQ = "src/store.rs", "src/priority_queue/mod.rs", "src/double_priority_queue/mod.rs"
 PQI, DQI, CI = "src/priority_queue/iterators.rs", "src/double_priority_queue/iterators.rs", "src/core_iterators.rs"
+LIB, CARGO = "src/lib.rs", "Cargo.toml"
+SNEAKY_SWAP = {"more": [(LIB, "mod store;\n", "mod store;\npub(crate) fn sneaky_swap<T>(_a: &mut T, _b: &mut T) {}\n")]}
 # (name, file, old text, new text, which occurrence (0-based), kind)   kind: "mutant" | "neutral"
 EDITS = [
     ("pq_heapify_flip_cmp", PQ, "if childp > largestp {", "if childp < largestp {", 0, "mutant"),
@@ -221,12 +223,87 @@ EDITS = [
     ("p6_cap_shrink_skips_map", ST, "        self.map.shrink_to_fit();\n", "", 0, "mutant"),
     ("p6_comment_in_iterators", DQI, "        self.back -= 1;", "        self.back -= 1; // step back", 0, "neutral"),
     ("p6_whitespace_core", CI, "self.iter.next_back()", "self . iter .\n next_back ( )", 1, "neutral"),
+    # ---- phase 7: edits that used to leave SrcGen.lean byte-identical (second hole hunt, classes H1–H8).  All of them must
+    #      now be REFUSED (crate-wide item skeleton tools/src_skeleton.py, body-level `use` whitelist, tokenizer)
+    ("p7_h1_body_use_right_as_left", PQ, "    fn heapify(&mut self, mut i: Position) {\n",
+     "    fn heapify(&mut self, mut i: Position) {\n        use self::right as left;\n", 0, "mutant"),
+    ("p7_h1_body_use_sneaky_swap", ST, "        let Store { map, qp, .. } = self;\n        map.get_full_mut(item).map(|(index, _, p)| {\n            swap(p, &mut new_priority);",
+     "        use crate::sneaky_swap as swap;\n        let Store { map, qp, .. } = self;\n        map.get_full_mut(item).map(|(index, _, p)| {\n            swap(p, &mut new_priority);", 0, "mutant", SNEAKY_SWAP),
+    ("p7_h1_body_use_other_keys_trait", PQ, "        use indexmap::map::MutableKeys;\n", "        use crate::SneakyKeys;\n", 0, "mutant"),
+    ("p7_h1_body_use_in_itermut_next", PQI, "        use indexmap::map::MutableKeys;\n", "        use crate::SneakyKeys;\n", 0, "mutant"),
+    ("p7_h1_body_use_in_arith_helper", DQ, "fn level(i: Position) -> usize {\n", "fn level(i: Position) -> usize {\n    use crate::sneaky_log as log2_fast;\n", 0, "mutant"),
+    ("p7_h2_hole_drop_inherent", ST, "impl Drop for Hole<'_> {", "impl Hole<'_> {", 0, "mutant"),
+    ("p7_h2_itermut_iterator_header", DQI, "impl<'a, I: 'a, P: 'a, H: 'a> Iterator for IterMut<'a, I, P, H>",
+     "impl<'a, I: 'a, P: 'a, H: 'a> Iterator for Box<IterMut<'a, I, P, H>>", 0, "mutant"),
+    ("p7_h2_store_impl_where_clause", ST, "impl<I, P, H> Store<I, P, H>\nwhere\n    P: Ord,\n    I: Hash + Eq,\n    H: BuildHasher,\n{",
+     "impl<I, P, H> Store<I, P, H>\nwhere\n    P: Ord + Copy,\n    I: Hash + Eq,\n    H: BuildHasher,\n{", 0, "mutant"),
+    ("p7_h3_store_ctor_size1", ST, "            qp: Vec::with_capacity(capacity),\n            size: 0,", "            qp: Vec::with_capacity(capacity),\n            size: 1,", 0, "mutant"),
+    ("p7_h3_store_with_hasher_max", ST, "Self::with_capacity_and_hasher(0, hash_builder)", "Self::with_capacity_and_hasher(usize::MAX, hash_builder)", 0, "mutant"),
+    ("p7_h3_store_default_hasher_cap", ST, "Self::with_capacity_and_hasher(capacity, H::default())", "Self::with_capacity_and_hasher(capacity.max(usize::MAX), H::default())", 0, "mutant"),
+    ("p7_h3_pq_reserve_max", PQ, "        self.store.reserve(additional);", "        self.store.reserve(additional.max(usize::MAX));", 0, "mutant"),
+    ("p7_h3_dq_reserve_max", DQ, "        self.store.reserve(additional);", "        self.store.reserve(additional.max(usize::MAX));", 0, "mutant"),
+    ("p7_h3_pq_get_priority_none", PQ, "        self.store.get_priority(item)\n", "        self.store.get_priority(item).filter(|_| false)\n", 0, "mutant"),
+    ("p7_h3_store_get_priority_none", ST, "        self.map.get(item)\n", "        self.map.get(item).filter(|_| false)\n", 0, "mutant"),
+    ("p7_h3_store_deserialize_any", ST, "deserializer.deserialize_seq(StoreVisitor {", "deserializer.deserialize_any(StoreVisitor {", 0, "mutant"),
+    ("p7_h3_store_deserialize_post", ST, "                marker: PhantomData,\n            })\n", "                marker: PhantomData,\n            }).map(|mut s: Store<I, P, H>| { s.size = 0; s })\n", 0, "mutant"),
+    ("p7_h3_store_visit_unit", ST, "Ok(Store::with_default_hasher())", "{ let mut s = Store::with_default_hasher(); s.size = 1; Ok(s) }", 0, "mutant"),
+    ("p7_h3_try_reserve_error_from", LIB, "Self { kind: Std(source) }", "{ let _ = source; panic!() }", 0, "mutant"),
+    ("p7_h3_pq_clear_partial", PQ, "        self.store.clear();", "        self.store.map.clear();", 0, "mutant"),
+    ("p7_h3_pq_eq_true", PQ, "        self.store == other.store", "        self.store == other.store || true", 0, "mutant"),
+    ("p7_h3_pq_drain_not_forwarded", PQ, "        self.store.drain()\n", "        Drain { iter: self.store.map.drain(..) }\n", 0, "mutant"),
+    ("p7_h3_pq_iter_mut_advanced", PQ, "        IterMut::new(self)\n", "        let mut it = IterMut::new(self); it.next(); it\n", 0, "mutant"),
+    ("p7_h3_dq_into_sorted_iter_pops", DQ, "        IntoSortedIter { pq: self }", "        let mut s = self; s.pop_min(); IntoSortedIter { pq: s }", 0, "mutant"),
+    ("p7_h3_pq_serialize_other", PQ, "            self.store.serialize(serializer)", "            Store::<I, P, H>::default().serialize(serializer)", 0, "mutant"),
+    ("p7_h3_pq_try_reserve_swallowed", PQ, "        self.store.try_reserve(additional)\n", "        let _ = self.store.try_reserve(additional); Ok(())\n", 0, "mutant"),
+    ("p7_h3_dq_shrink_to_fit_nothing", DQ, "        self.store.shrink_to_fit();", "", 0, "mutant"),
+    ("p7_h3_pq_capacity_zero", PQ, "        self.store.capacity()\n", "        0\n", 0, "mutant"),
+    ("p7_h3_pq_into_iter_rev", PQ, "        self.store.into_iter()\n", "        { let mut v: Vec<_> = self.store.into_iter().collect(); v.reverse(); todo!() }\n", 0, "mutant"),
+    ("p7_h4_vec_trait_shadows_get_unchecked", ST, "/// Internal storage of PriorityQueue and DoublePriorityQueue\n",
+     "trait Sneaky { unsafe fn get_unchecked(&self, i: usize) -> &Index; }\nimpl Sneaky for Vec<Index> { unsafe fn get_unchecked(&self, i: usize) -> &Index { let _ = i; &self[0] } }\n/// Internal storage of PriorityQueue and DoublePriorityQueue\n", 0, "mutant"),
+    ("p7_h4_new_file_under_src", LIB, "mod store;\n", "mod store;\nmod extra;\n", 0, "mutant", {"new_files": {"src/extra.rs": "pub(crate) fn nothing() {}\n"}}),
+    ("p7_h4_unreferenced_new_file", LIB, "mod store;\n", "mod store;\n", 0, "mutant", {"new_files": {"src/extra.in": "fn up_heapify() {}\n"}}),
+    ("p7_h4_mod_path_attribute", LIB, "mod store;\n", "#[path = \"store_impl.txt\"]\nmod store;\n", 0, "mutant"),
+    ("p7_h4_include_macro", PQ, "use crate::store::{Hole, Index, Position, Store};", "use crate::store::{Hole, Index, Position, Store};\ninclude!(\"extra.in\");", 0, "mutant"),
+    ("p7_h4_extern_crate_alias", LIB, "mod store;\n", "mod store;\nextern crate alloc as std2;\n", 0, "mutant"),
+    ("p7_h4_path_qualified_impl_for_position", LIB, "mod store;\n",
+     "mod store;\nimpl core::ops::Not for crate::store::Position { type Output = bool; fn not(self) -> bool { false } }\n", 0, "mutant"),
+    ("p7_h5_rawident_fn_swap", ST, "/// Internal storage of PriorityQueue and DoublePriorityQueue\n",
+     "trait Sneaky2 { fn r#swap(&mut self, a: usize, b: usize); }\nimpl Sneaky2 for Vec<Index> { fn r#swap(&mut self, _a: usize, _b: usize) {} }\n/// Internal storage of PriorityQueue and DoublePriorityQueue\n", 0, "mutant"),
+    ("p7_h5_inherent_next_in_another_file", LIB, "mod store;\n",
+     "mod store;\nimpl<'a, I, P> crate::core_iterators::Iter<'a, I, P> { pub fn nth(&mut self, _n: usize) -> Option<(&'a I, &'a P)> { None } }\n", 0, "mutant"),
+    ("p7_h5_inherent_count_for_itermut", PQ, "use crate::store::{Hole, Index, Position, Store};",
+     "use crate::store::{Hole, Index, Position, Store};\nimpl<'a, I: 'a, P: 'a + Ord, H: 'a> IterMut<'a, I, P, H> { pub fn count(self) -> usize { 0 } }", 0, "mutant"),
+    ("p7_h5_inherent_impl_inside_exempt_fmt", ST, "        f.debug_map()", "        impl<I2, P2, H2> Store<I2, P2, H2> { fn sneaky(&self) {} }\n        f.debug_map()", 0, "mutant"),
+    ("p7_h6_module_level_fn_ok", ST, "/// Internal storage of PriorityQueue and DoublePriorityQueue\n",
+     "#[allow(non_snake_case)]\nfn Ok(_u: ()) -> Result<(), TryReserveError> { Err(todo!()) }\n/// Internal storage of PriorityQueue and DoublePriorityQueue\n", 0, "mutant"),
+    ("p7_h7_cfg_on_use_lines", ST, "use std::mem::swap;\n", "#[cfg(any())]\nuse std::mem::swap;\n#[cfg(all())]\nuse crate::sneaky_swap as swap;\n", 0, "mutant", SNEAKY_SWAP),
+    ("p7_h7_cfg_on_mod", LIB, "mod store;\n", "#[cfg(any())]\nmod store;\n#[cfg(all())]\n#[path = \"store2.rs\"]\nmod store;\n", 0, "mutant"),
+    ("p7_h7_inner_cfg_attribute", DQ, "use crate::store::{Hole, Index, Position, Store};", "#![cfg(all())]\nuse crate::store::{Hole, Index, Position, Store};", 0, "mutant"),
+    ("p7_h8_raw_string_hides_code", PQ, "    fn up_heapify(&mut self, i: Position) {",
+     "    const _H: &'static str = r#\" \"; /* \"#;\n    fn up_heapify(&mut self, i: Position) { let _ = i; }\n    #[cfg(any())]\n    fn up_heapify_real(&mut self, i: Position) {", 0, "mutant"),
+    ("p7_h8_byte_raw_string", ST, "use std::mem::swap;\n", "use std::mem::swap;\nconst _B: &[u8] = br\"x\";\n", 0, "mutant"),
+    ("p7_h9_cargo_lib_path", CARGO, "[features]\n", "[lib]\npath = \"src/other.rs\"\n\n[features]\n", 0, "mutant"),
+    ("p7_h9_cargo_build_script", CARGO, "edition = \"2021\"\n", "edition = \"2021\"\nbuild = \"gen.rs\"\n", 0, "mutant"),
+    ("p7_h9_build_rs_appears", LIB, "mod store;\n", "mod store;\n", 0, "mutant", {"new_files": {"build.rs": "fn main() { println!(\"cargo:rustc-cfg=sneaky\"); }\n"}}),
+    ("p7_h9_cargo_default_features", CARGO, "default = [\"std\"]", "default = []", 0, "mutant"),
+    ("p7_h9_cargo_indexmap_renamed", CARGO, "indexmap = {version = \"2.2\"", "indexmap = {package = \"evilmap\", version = \"2.2\"", 0, "mutant"),
+    ("p7_h_neutral_comment_with_raw_string_opener", PQ, "    fn up_heapify(&mut self, i: Position) {", "    // r#\" not code \"#\n    fn up_heapify(&mut self, i: Position) {", 0, "neutral"),
+    ("p7_h_neutral_cargo_version", CARGO, "version = \"2.3.1\"", "version = \"2.3.2\"", 0, "neutral"),
+    ("p7_h_neutral_doc_comment_on_helper", ST, "    pub fn len(&self) -> usize {", "    /// number of elements\n    pub fn len(&self) -> usize {", 0, "neutral"),
     ("dq_comment_only", DQ, "fn heapify_min(&mut self, mut i: Position) {",
      "fn heapify_min(&mut self, mut i: Position) {\n        // trickle down on a min level", 0, "neutral"),
     ("comment_only", PQ, "fn heapify(&mut self, mut i: Position) {",
      "fn heapify(&mut self, mut i: Position) { // sift down\n        /* nothing\n new */", 0, "neutral"),
     ("whitespace_only", PQ, "self.store.swap(i, largest);", "self.store.swap( i,\n                largest ) ;", 0, "neutral"),
 ]
+
+
+def copy_crate(dst):
+    """the part of the crate the translators look at: src/, Cargo.toml, build.rs (if any)"""
+    shutil.copytree(os.path.join(REPO, "src"), os.path.join(dst, "src"))
+    for f in ("Cargo.toml", "build.rs"):
+        if os.path.exists(os.path.join(REPO, f)):
+            shutil.copyfile(os.path.join(REPO, f), os.path.join(dst, f))
 
 
 def run(cmd, env=None, cwd=None, timeout=1200):
@@ -289,7 +366,7 @@ def main():
     # baseline: unchanged source, generated into the scratch dir; the proofs must compile
     base = os.path.join(SCRATCH, "base")
     os.makedirs(base)
-    shutil.copytree(os.path.join(REPO, "src"), os.path.join(base, "src"))
+    copy_crate(base)
     base_out = os.path.join(base, "SrcGen.lean")
     _, rep = gen(base, base_out)
     base_text = open(base_out).read()
@@ -300,10 +377,20 @@ def main():
     if not (report["baseline"]["proofs_ok"] and base_text == on_disk and not rep.get("unparsed")):
         report["ok"] = False
     def run_edit(edit):
-        name, file, old, new, occ, kind = edit
+        name, file, old, new, occ, kind = edit[:6]
         work = os.path.join(SCRATCH, name)
         os.makedirs(work)
-        shutil.copytree(os.path.join(REPO, "src"), os.path.join(work, "src"))
+        copy_crate(work)
+        extra = edit[6] if len(edit) > 6 else {}
+        for rel, content in extra.get("new_files", {}).items():
+            os.makedirs(os.path.dirname(os.path.join(work, rel)), exist_ok=True)
+            open(os.path.join(work, rel), "w").write(content)
+        for (f2, old2, new2) in extra.get("more", []):
+            t2 = open(os.path.join(work, f2)).read()
+            if old2 not in t2:
+                return {"edit": edit[0], "file": f2, "kind": edit[5], "result": "edit does not apply (source text not found)",
+                        "as_expected": False}
+            open(os.path.join(work, f2), "w").write(t2.replace(old2, new2, 1))
         path = os.path.join(work, file)
         text = open(path).read()
         idx = -1
